@@ -138,6 +138,243 @@ static Family life_tcp(const std::string &tier)
   return f;
 }
 
+
+// ---------------------------------------------------------------- C10: sock
+static Family sock_family(const std::string &tier)
+{
+  Family f = life_tcp(tier);
+  f.name   = "sock";
+  f.cfgs.clear();
+  {
+    Cfg c             = cfg("udp-umq1", 1, 2, 0);
+    c.udp_max_queries = 1;
+    f.cfgs.push_back(c);
+  }
+  {
+    Cfg c             = cfg("udp-umq2-stayopen-2srv", 2, 1, ARES_FLAG_STAYOPEN);
+    c.udp_max_queries = 2;
+    f.cfgs.push_back(c);
+  }
+  {
+    Cfg c           = cfg("legacy-fds-udp", 1, 2, 0);
+    c.sock_state_cb = false;
+    f.cfgs.push_back(c);
+  }
+  {
+    Cfg c           = cfg("legacy-fds-tcp-inprogress", 1, 2, ARES_FLAG_USEVC);
+    c.sock_state_cb = false;
+    c.connect_mode  = 1;
+    f.cfgs.push_back(c);
+  }
+  {
+    Cfg c           = cfg("legacy-getsock-udp-stayopen", 2, 1, ARES_FLAG_STAYOPEN);
+    c.sock_state_cb = false;
+    c.use_getsock   = true;
+    f.cfgs.push_back(c);
+  }
+  {
+    Cfg c          = cfg("tcp-inprogress-stayopen", 1, 2, ARES_FLAG_USEVC | ARES_FLAG_STAYOPEN);
+    c.connect_mode = 1;
+    f.cfgs.push_back(c);
+  }
+  {
+    Cfg c = cfg("tcp-tfo-stayopen", 1, 2, ARES_FLAG_USEVC | ARES_FLAG_STAYOPEN);
+    c.tfo = true;
+    f.cfgs.push_back(c);
+  }
+  {
+    Cfg c        = cfg("udp-localbind-edns", 1, 2, ARES_FLAG_EDNS);
+    c.local_bind = true;
+    f.cfgs.push_back(c);
+  }
+  {
+    Cfg c              = cfg("tcp-pendingwrite", 1, 2, ARES_FLAG_USEVC);
+    c.pending_write_cb = true;
+    f.cfgs.push_back(c);
+  }
+  f.req_menu = { 0, 4, 2, 18 };
+  f.replies  = { RK_DATA, RK_SERVFAIL, RK_TC };
+  f.faults   = { FS_SOCKET, FS_SETSOCKOPT, FS_BIND, FS_CONNECT, FS_GETSOCKNAME, FS_SEND_REFUSED, FS_SEND_WOULDBLOCK, FS_SEND_SHORT, FS_RECV_RESET };
+  f.setservers = { 1, 2 };
+  f.evmask |= EVBIT(EV_TCP) | EVBIT(EV_WRITECB);
+  f.default_oracles = "C10";
+  return f;
+}
+
+// --------------------------------------------------------------- C06: retry
+static Family retry_family(const std::string &tier)
+{
+  Family f;
+  f.name = "retry";
+  struct P {
+    int srv, tries, to, maxto, umq;
+    unsigned flags;
+    bool rotate;
+  };
+  std::vector<P> ps = {
+    { 1, 1, 2000, 0, 0, 0, false },       { 1, 2, 2000, 0, 0, 0, false },        { 1, 3, 250, 0, 0, ARES_FLAG_EDNS, false },
+    { 2, 1, 2000, 0, 0, 0, false },       { 2, 2, 2000, 5000, 0, ARES_FLAG_EDNS, false }, { 2, 2, 1, 0, 1, 0, false },
+    { 3, 1, 2000, 0, 0, 0, true },        { 2, 2, 2000, 1, 0, 0, false },        { 1, 3, 2000, 3000, 2, ARES_FLAG_EDNS, false },
+    { 2, 1, 250, 0, 0, ARES_FLAG_USEVC, false }, { 3, 2, 1000, 2500, 0, ARES_FLAG_EDNS, true }, { 1, 2, 2000, 0, 0, ARES_FLAG_EDNS | ARES_FLAG_DNS0x20, false },
+  };
+  for (auto &p : ps) {
+    Cfg c             = cfg("", p.srv, p.tries, p.flags);
+    c.timeout_ms      = p.to;
+    c.maxtimeout_ms   = p.maxto;
+    c.udp_max_queries = p.umq;
+    c.rotate          = p.rotate;
+    char b[128];
+    snprintf(b, sizeof b, "srv%d-tries%d-to%d-max%d-umq%d-fl%x%s", p.srv, p.tries, p.to, p.maxto, p.umq, p.flags, p.rotate ? "-rot" : "");
+    c.name = b;
+    f.cfgs.push_back(c);
+  }
+  f.reqs     = life_reqs();
+  f.req_menu = { 0, 18 };
+  f.replies  = { RK_SERVFAIL, RK_REFUSED, RK_NOTIMP, RK_FORMERR_NOOPT, RK_TC, RK_BADCOOKIE, RK_DATA };
+  f.faults   = { FS_SOCKET, FS_CONNECT, FS_SEND_REFUSED, FS_RECV_RESET };
+  f.setservers = { 2, 4 };
+  f.evmask   = EVBIT(EV_REQ) | EVBIT(EV_REPLY) | EVBIT(EV_IO) | EVBIT(EV_TIMER) | EVBIT(EV_SETSERVERS) | EVBIT(EV_FAULT);
+  f.policy_mask = (1u << ARES_VERIF_RAND_JITTER) | (1u << ARES_VERIF_RAND_ROTATE);
+  f.max_req   = 2;
+  f.max_depth = tier == "quick" ? 5 : 7;
+  f.max_dev   = tier == "quick" ? 1 : 2;
+  f.default_oracles = "C06";
+  f.end_oracle = [](World &w, const History &h) { oracle_c06_retry(w, h); };
+  return f;
+}
+
+// tries >= 64: one long all-silent history per configuration (the shift in the timeout doubling)
+static Family retry_long_family(const std::string &tier)
+{
+  Family f = retry_family(tier);
+  f.name   = "retry-long";
+  f.cfgs.clear();
+  for (int tries : { 64, 65, 70 })
+    for (int srv : { 1, 2 }) {
+      Cfg c           = cfg("", srv, tries, 0);
+      c.timeout_ms    = 250;
+      c.maxtimeout_ms = 1000;
+      char b[64];
+      snprintf(b, sizeof b, "srv%d-tries%d", srv, tries);
+      c.name = b;
+      f.cfgs.push_back(c);
+    }
+  f.req_menu  = { 0 };
+  f.replies   = {};
+  f.faults    = {};
+  f.setservers = {};
+  f.evmask    = EVBIT(EV_REQ);
+  f.policy_mask = 0;
+  f.max_req   = 1;
+  f.max_depth = 1;
+  return f;
+}
+
+// ------------------------------------------------------------ C05: adversary
+static Family adversary_family(const std::string &tier)
+{
+  Family f;
+  f.name = "adversary";
+  {
+    Cfg c            = cfg("2srv-edns-cache", 2, 2, ARES_FLAG_EDNS);
+    c.qcache_max_ttl = 3600;
+    f.cfgs.push_back(c);
+  }
+  {
+    Cfg c            = cfg("2srv-0x20-cache", 2, 2, ARES_FLAG_DNS0x20);
+    c.qcache_max_ttl = 3600;
+    f.cfgs.push_back(c);
+  }
+  {
+    Cfg c            = cfg("2srv-plain-stayopen", 2, 2, ARES_FLAG_STAYOPEN);
+    c.qcache_max_ttl = 3600;
+    f.cfgs.push_back(c);
+  }
+  {
+    Cfg c = cfg("1srv-usevc", 1, 2, ARES_FLAG_USEVC);
+    f.cfgs.push_back(c);
+  }
+  f.reqs       = life_reqs();
+  f.req_menu   = { 0, 18 };
+  f.req_repeat = true;
+  f.replies    = { RK_DATA, RK_TC, RK_SERVFAIL, RK_CK_VALID };
+  f.forges     = { FG_WRONGID, FG_WRONGNAME, FG_WRONGTYPE, FG_WRONGCLASS, FG_CASEFLIP, FG_WRONGSRC, FG_OTHERSOCK, FG_NOCOOKIE, FG_BADCLIENTCOOKIE };
+  f.evmask     = EVBIT(EV_REQ) | EVBIT(EV_REPLY) | EVBIT(EV_FORGE) | EVBIT(EV_IO) | EVBIT(EV_TIMER);
+  f.max_req    = 2;
+  f.max_forge  = tier == "quick" ? 1 : 2;
+  f.max_dev    = tier == "quick" ? 1 : 2;
+  f.max_depth  = tier == "quick" ? 5 : 7;
+  f.default_oracles = "C05";
+  f.end_oracle = [](World &w, const History &h) { oracle_c05_provenance(w, h); };
+  return f;
+}
+
+// ---------------------------------------------------------------- C08: cache
+static Family cache_family(const std::string &tier)
+{
+  Family f;
+  f.name = "cache";
+  for (int maxttl : { 3600, 5, 0 })
+    for (unsigned fl : { 0u, (unsigned)ARES_FLAG_DNS0x20 }) {
+      if (maxttl == 0 && fl) continue;
+      Cfg c            = cfg("", 1, 2, fl | ARES_FLAG_EDNS);
+      c.qcache_max_ttl = maxttl;
+      char b[64];
+      snprintf(b, sizeof b, "1srv-maxttl%d-%s", maxttl, fl ? "0x20" : "plain");
+      c.name = b;
+      f.cfgs.push_back(c);
+    }
+  {
+    Cfg c            = cfg("2srv-maxttl3600", 2, 1, ARES_FLAG_EDNS);
+    c.qcache_max_ttl = 3600;
+    f.cfgs.push_back(c);
+  }
+  // request table: a base question and its near misses
+  f.reqs.push_back(rq(2, "www.example.com"));           // 0 base (query_dnsrec A IN rd)
+  f.reqs.push_back(rq(2, "WWW.Example.COM"));           // 1 other case
+  f.reqs.push_back(rq(2, "www.example.com", 28));       // 2 other type
+  {
+    ReqSpec r = rq(2, "www.example.com");
+    r.qclass  = 3;
+    f.reqs.push_back(r);                                // 3 other class (CHAOS)
+  }
+  {
+    ReqSpec r = rq(0, "www.example.com");
+    r.rd      = false;
+    f.reqs.push_back(r);                                // 4 send_dnsrec RD off
+  }
+  {
+    ReqSpec r = rq(0, "www.example.com");
+    r.cd      = true;
+    f.reqs.push_back(r);                                // 5 send_dnsrec CD on
+  }
+  f.reqs.push_back(rq(3, "www.example.com"));           // 6 legacy ares_query (buffer consumer)
+  f.reqs.push_back(rq(4, "www"));                       // 7 search: www + example.com
+  f.reqs.push_back(rq(6, "www.example.com", 1, 0, 0, AF_INET)); // 8 getaddrinfo A only
+  f.reqs.push_back(rq(2, "www.example.com."));          // 9 trailing dot
+  f.reqs.push_back(rq(0, "www.example.com"));           // 10 send_dnsrec, same as base
+  for (auto &c : f.cfgs) c.auto_io = true;
+  f.req_repeat = true;
+  if (tier == "quick") {
+    f.req_menu = { 0, 1, 2, 4, 6, 8, 10 };
+    f.replies  = { RK_DATA_TTL5, RK_DATA_MULTI, RK_NXDOMAIN, RK_TC, RK_SERVFAIL };
+    f.advances = { 1000, 6000 };
+    f.setservers = { 0, 3 };
+  } else {
+    f.req_menu   = { 0, 1, 2, 3, 4, 5, 6, 7, 8, 9, 10 };
+    f.replies    = { RK_DATA, RK_DATA_TTL5, RK_DATA_TTL0, RK_DATA_MULTI, RK_NXDOMAIN, RK_NXDOMAIN_NOSOA, RK_NODATA, RK_TC, RK_SERVFAIL };
+    f.advances   = { 1000, 4000, 6000, 3601000 };
+    f.setservers = { 0, 2, 3 };
+  }
+  f.evmask     = EVBIT(EV_REQ) | EVBIT(EV_REPLY) | EVBIT(EV_IO) | EVBIT(EV_ADVANCE) | EVBIT(EV_SETSERVERS) | EVBIT(EV_REINIT);
+  f.max_req    = tier == "quick" ? 3 : 4;
+  f.max_adv    = 2;
+  f.max_depth  = tier == "quick" ? 4 : 5;
+  f.default_oracles = "C08";
+  f.end_oracle = [](World &w, const History &h) { oracle_c08_cache_end(w, h); };
+  return f;
+}
+
 const Family *find_family(const std::string &name, const std::string &tier)
 {
   static std::map<std::string, Family> cache;
@@ -148,6 +385,11 @@ const Family *find_family(const std::string &name, const std::string &tier)
   if (name == "life-udp") f = life_udp(tier);
   else if (name == "life-tcp") f = life_tcp(tier);
   else if (name == "life-reentrant") f = life_reentrant(tier);
+  else if (name == "sock") f = sock_family(tier);
+  else if (name == "retry") f = retry_family(tier);
+  else if (name == "retry-long") f = retry_long_family(tier);
+  else if (name == "adversary") f = adversary_family(tier);
+  else if (name == "cache") f = cache_family(tier);
   else return nullptr;
   cache[k] = f;
   return &cache[k];
